@@ -717,3 +717,34 @@ Proof.
           (spt_decide_correct _ (map (map f) p) (NoDup_map_injective f alts Hinj Hnd)).
   apply SPT_relabel. exact Hinj.
 Qed.
+
+(* heredity in the votes: a sub-profile of a profile single-peaked on a tree is single-peaked on the same tree *)
+Theorem SPT_subprofile alts p p' : (forall v, In v p' -> In v p) -> SPT alts p -> SPT alts p'.
+Proof. intros Hi (T & HT). exists T. eapply spt_spec_profile_incl; eauto. Qed.
+
+(* ------------------------------------------------------------------------------------------------ *)
+(** * Sanity of the definition of spanning_tree: it is a minimally connected graph (every edge is a
+      bridge, hence there is no cycle) *)
+
+Lemma connected_edge_bound alts T :
+  NoDup alts -> connected T alts -> length alts <= S (length T).
+Proof.
+  intros Hnd Hconn. destruct alts as [|r rest]; [cbn; lia|]. cbn. apply le_n_S.
+  assert (Hg : grow (length rest) T [r] rest = []).
+  { apply grow_complete; [lia|discriminate|exact Hconn]. }
+  destruct (grow_chain T _ [r] rest Hnd Hg) as (L & HLp & Hch).
+  pose proof (chain_edges _ _ _ Hch) as Hed.
+  assert (Hl : length rest = length (map (lit T) L)).
+  { rewrite map_length, <- (Permutation_length HLp), map_length. reflexivity. }
+  rewrite Hl.
+  apply NoDup_incl_length; [eapply chain_lit_nodup; exact Hch|].
+  intros e He. apply in_map_iff in He. destruct He as (e0 & <- & He0).
+  apply lit_in. apply Hed. exact He0.
+Qed.
+
+Theorem spanning_tree_minimal alts T1 e T2 :
+  NoDup alts -> spanning_tree alts (T1 ++ e :: T2) -> ~ connected (T1 ++ T2) alts.
+Proof.
+  intros Hnd (Hlen & _ & _) Hc. apply (connected_edge_bound _ _ Hnd) in Hc.
+  rewrite app_length in *. cbn in Hlen. lia.
+Qed.
